@@ -80,8 +80,10 @@ void *__wrap_malloc(size_t n)
     p = __real_malloc(n);
     if (vh_in_lib > 0) {
 	track(p, n);
+#ifndef VH_MSAN	/* (MemorySanitizer tracks it exactly: a fill would count as initialisation) */
 	/* make a read of memory the library never wrote deterministic and visible (NaN as a double) */
 	if (p != NULL) memset(p, 0xff, n);
+#endif
     }
     return p;
 }
